@@ -288,6 +288,15 @@ class Check(CheckBase):
         for cut in sorted({len(img) - k for k in (1, 2, 100, 4096, 8191, 8192, 8193, 12000, 16384, 20000)}):
             if cut > 3 * 8192:
                 judge({"origin": "short", "what": "akai-cut", "cut": cut}, tree.full_run(img[:cut], cpu_s=30.0, ls_paths=()))
+        # (b') cuts at odd and even byte offsets INSIDE the audio of a mono sample of three sectors (reversed chain)
+        spec = {"parts": [{"vols": [{"name": "VOL", "dir": [3], "files": [
+            {"name": "MONO", "n": 10000, "chain": [6, 5, 4], "seq": 1}, {"name": "TAIL", "n": 40, "chain": [7], "seq": 2}]}]}]}
+        img, layout = A.build_akai(A.model_from_spec(spec))
+        for sec in (4, 5, 6):
+            base = 8192 * sec      # one partition starting at offset 0: sector k lies at 8192*k
+            for d in (1, 2, 3, 141, 142, 1001, 4096, 4097, 8190, 8191):
+                cut = base + d
+                judge({"origin": "short", "what": "akai-cut-in-audio", "cut": cut}, tree.full_run(img[:cut], cpu_s=30.0, ls_paths=()))
         # (c) CDDA: the bin is shorter than the cue sheet's index positions / ends inside a track
         for positions, binlen in (([0, 2, 4], 2352 * 3 + 7), ([0, 2, 4], 2352 * 2), ([0, 150], 2352 * 100), ([1, 3], 2352), ([0], 5), ([0, 1], 2352 + 2)):
             with scratch_dir("c04s") as d:
